@@ -166,6 +166,23 @@ def check_dag(parents):
     why = check_order(walked, o3, lambda y: y.parents, "`for op in p.values: op.state()` on a fresh pipeline")
     if why:
         return why
+    # the caller keeps using the list it passed as `parents` (one list object, cleared and refilled for every node):
+    # the DAG must have taken what it needed at insertion time
+    d4 = DAG()
+    n4 = []
+    shared = []
+    for ps in parents:
+        shared[:] = [n4[j] for j in ps]
+        nd = Node()
+        d4.add_node(nd, shared if ps else None)
+        n4.append(nd)
+    shared.clear()
+    for k, ps in enumerate(parents):
+        if [id(q) for q in n4[k].parents] != [id(n4[j]) for j in ps]:
+            return f"node {k}: parents changed after the caller reused the list it had passed (declared {ps})"
+    why = check_order(list(d4), n4, lambda y: y.parents, "DAG built from a reused parents list")
+    if why:
+        return why
     # a pipeline that is iterated while it is still being built (iteration after every insertion)
     d2 = DAG()
     n2 = []
